@@ -5,7 +5,7 @@ import json
 import random
 import warnings
 
-from . import build as B, gen_hist, gen_pos, treejson as TJ
+from . import build as B, gen_fuzz, gen_hist, gen_pos, treejson as TJ
 from .core import Outcome, stable_hash
 
 ONE, MANY = 'one', 'many'
@@ -115,13 +115,28 @@ def messages(tier, seed):
         cls, msg = gen_hist.random_message(g, state, 100 + k)
         text = TJ.to_text(pretty(msg) if k % 2 else msg)
         out.append((f'random {cls} #{k}', text))
+    frng = random.Random(seed * 23 + 1)
+    for lbl, text in list(out):
+        if frng.random() < (0.4 if tier == 'quick' else 2.0):
+            try:
+                m = gen_fuzz.mutate(frng, TJ.parse(text))
+                out.append(('fuzz|' + lbl, TJ.to_text(m)))
+            except Exception:  # noqa: BLE001
+                pass
     return out
 
 
 def run_c20(tier, seed):
     from . import lean
     oc = Outcome('C20')
-    msgs = messages(tier, seed)
+    msgs = []
+    for lbl, t in messages(tier, seed):
+        try:
+            from . import impl
+            impl.load(t)
+            msgs.append((lbl, t))
+        except Exception:  # noqa: BLE001 - mutated into something unclassifiable
+            continue
     obs = [observe(t) for _, t in msgs]
     reqs = []
     for (_, text), o in zip(msgs, obs):
